@@ -614,7 +614,14 @@ def big_scenario(rng, i):
             refs.append("stage0.AB%s:loopoutput" % ("/" + f if f else ""))
             for it in range(2):
                 files["stage0.%d#AB/%s" % (it, f or "out.stdout")] = big_content(rng, size if it else 4096, unit="x")
-    add(first, BIG_SIZES[(i // 4 + i) % len(BIG_SIZES)] if i >= 4 else [65537, 131073, 70001, 65537][i])
+    # scenarios 0-3: every kind once above 128 KiB; 4-7: every kind once just above / at 64 KiB; then rotating
+    if i < 4:
+        size = [131073, 200000, 131073, 140001][i]
+    elif i < 8:
+        size = [65537, 65537, 65536, 65537][i - 4]
+    else:
+        size = BIG_SIZES[(i // 4 + i) % len(BIG_SIZES)]
+    add(first, size)
     if second != "none":
         add(second, rng.choice(BIG_SIZES))
     refs.append(rng.choice(["stage0.BA:ref", "A:ref", "stage0.A/:ref"]))
@@ -918,9 +925,12 @@ def run(ctx):
     ctx.rule = ("case = (producer set over stages 0..2 drawn from 6 families of mutually overlapping names, optionally a real "
                 "DoWhile whose 1-2 looped components have 1-3 loop instances, consumer stage, 2-4 declared references in one "
                 "declaration order mixing :ref/:output/:loopref/:loopoutput/:copy/:link (to working directories, files, "
-                "stdout, placeholders), absolute and relative spellings, data/ direct references, byte-exact files whose "
+                "stdout, placeholders), absolute and relative spellings, data/ direct references, degenerate file parts "
+                "(present but empty `P/:ref`, `.`, trailing / doubled separator, `./f`; direct paths with trailing / doubled "
+                "separator or `.`), byte-exact files whose "
                 "contents carry white space at both ends (blanks, tabs, VT/FF, NBSP, blank lines, CR/CRLF), are empty / "
-                "white-space only / missing / very long / look like references, argument string built from separators, noise "
+                "white-space only / missing / look like references / are long (size classes 4 KiB, 64 KiB +-1, 96 KiB, "
+                "128 KiB +-1, 200 KB for :output of file, stdout, direct file and :loopoutput), argument string built from separators, noise "
                 "text and reference tokens); every declaration order (all permutations of <= 4 references) is built as its "
                 "own real Experiment; non-trivial = >= 2 declared references and >= 2 reference tokens in the argument "
                 "string; distinct by canonical JSON of the case")
@@ -934,6 +944,10 @@ def run(ctx):
         "instance; files are valid UTF-8",
         "the :loopoutput branch reads in text mode (CRLF and CR become LF) while :output keeps carriage returns: values of "
         ":loopoutput references whose files contain CR are compared with the model only, not judged by the oracle",
+        "no file part starts with a separator (`P//x`: os.path.join then drops the producer and the spelling is `/x:ref`, "
+        "Witness.C10.doubled_separator_spelling_is_not_the_text) and no reference is an absolute path; `P/:output` / "
+        "`P/:loopoutput` (a directory where a file is needed) are not generated; the value of a direct reference is the "
+        "normalised path below the instance directory",
         "argument strings other than the canonical one are installed with setOption('#command.arguments') on the loaded "
         "experiment (the loader refuses undeclared reference-like text, which the property wants left untouched)",
     ]
